@@ -67,6 +67,9 @@ def main():
             sh(['git', '-C', WT, 'checkout', '.'])
     finally:
         sh(['git', '-C', '/repo', 'worktree', 'remove', '--force', WT]); shutil.rmtree(WT, ignore_errors=True)
+        # leave the generated files as they are for /repo
+        rc, units = sh([os.path.join(ROOT, 'bin', 'go2lean'), '-list'])
+        sh([os.path.join(ROOT, 'bin', 'go2lean'), '/repo', os.path.join(ROOT, 'lean', 'FitModel', 'Generated')] + [l.split()[0] for l in units.split('\n') if l.strip()])
     json.dump(results, open(os.path.join(ROOT, 'work', 'go2lean-selftest-' + (pref or 'all') + '.json'), 'w'), indent=1)
 
 if __name__ == '__main__':
